@@ -180,7 +180,7 @@ def regf(exclude=()):
     return reg
 
 
-def tasks():
+def _f_tasks():
     out = []
     for c in CONTRACTS:
         ex = INLINE_FOR.get(c.target)
@@ -198,3 +198,14 @@ ASSUMPTIONS = [
     "(which output runs in which state) belong to the machine-level engine",
     "compute_key requires _versions to be a dict (attrs validator instance_of(dict) on the field)",
 ]
+
+
+
+def select_m(name):
+    return name.startswith("post:C01:")
+
+
+def tasks():
+    """function-level tasks plus the machine-level obligations of this property (mailbox-cluster engine)"""
+    from pyvc.mrun import ClusterTask
+    return _f_tasks() + [ClusterTask("mailbox-cluster", "props.mailbox", "engine", select_m, "mailbox_history:search")]
